@@ -116,12 +116,16 @@ class Driver:
         return (tuple(self.farm._busy), tuple(x.tag for x in self.schedule.que),
                 tuple(n.get('todo')), tuple(sorted(n.get('doing'))), n.get('status').name)
 
+    flavor = 'api'
+
     def make_process(self, prio):
         import dawgie.fe.api.submit as api_submit
+        import dawgie.fe.submit as old_submit
         from . import fsmworld
-        p = object.__new__(api_submit.Process)
+        p = object.__new__(api_submit.Process if self.flavor == 'api' else old_submit.Process)
+        msg = 'unspecified' if self.flavor == 'api' else {'alert_status': 'danger', 'alert_message': 'unspecified'}
         for k, v in (('changeset', 'abc123'), ('clear', lambda: None), ('failed', False),
-                     ('msg', 'unspecified'), ('request', fsmworld.FakeRequest()),
+                     ('msg', msg), ('request', fsmworld.FakeRequest()),
                      ('repo', '/nowhere'), ('submission', prio)):
             setattr(p, '_Process__' + k, v)
         return p
@@ -141,6 +145,8 @@ class Driver:
                 evs.append(('s1', prio))
         if self.sub is not None:
             evs.append(('s3',))
+            # the poster has closed its connection without reading the answer
+            evs.append(('s3', 'client-gone'))
         if self.nreset < self.max_reset:
             # the operator's POST /api/cmd/reset, at any moment
             evs.append(('cmd-reset',))
@@ -188,6 +194,8 @@ class Driver:
                 except ValueError:
                     pr = ts.Priority.TODO
                 self.since_reset.append(pr)
+                if len(ev) > 1:
+                    p._Process__request.gone = True
                 p.step_3(None)
             elif kind == 'cmd-reset':
                 import json
@@ -332,6 +340,7 @@ def job(args):
     max_reset = args[6] if len(args) > 6 else 0
     from . import explore
     dr = Driver(max_sub, max_req, max_cycles, prios, max_reset)
+    dr.flavor = args[7] if len(args) > 7 else 'api'
 
     def build(hist, report=None):
         dr.reset()
@@ -362,7 +371,7 @@ def job(args):
     res = explore.replay_bfs(expand, k0, cap=400000)
     viol = {}
     for sig, what, hist in res['violations']:
-        v = viol.setdefault(sig, {'what': what, 'replay': {'history': hist, 'bounds': [max_sub, max_req, max_cycles], 'max_reset': max_reset,
+        v = viol.setdefault(sig, {'what': what, 'replay': {'history': hist, 'bounds': [max_sub, max_req, max_cycles], 'max_reset': max_reset, 'flavor': dr.flavor,
                                                           'prios': list(prios)}, 'count': 0})
         v['count'] += 1
         if len(hist) < len(v['replay']['history']):
@@ -380,10 +389,12 @@ def run(ctx):
                 # more queue traffic (the queue list is re-bound by every organize), one submission
                 (ctx.tier, ctx.seed, 1, 3, 1, ('todo_empty', 'doing_empty', 'crew_idle')),
                 # the operator's reset command at any moment next to two submissions
-                (ctx.tier, ctx.seed, 2, 1, 1, ('crew_idle', 'todo_empty'), 1)]
+                (ctx.tier, ctx.seed, 2, 1, 1, ('crew_idle', 'todo_empty'), 1),
+                # the legacy submit end point (fe.submit.Process)
+                (ctx.tier, ctx.seed, 2, 1, 1, ('now', 'crew_idle', 'todo_empty'), 0, 'old')]
     else:
         jobs = [(ctx.tier, ctx.seed, 3, 1, 2, PRIOS), (ctx.tier, ctx.seed, 2, 2, 2, PRIOS),
-                (ctx.tier, ctx.seed, 2, 1, 2, PRIOS, 2)]
+                (ctx.tier, ctx.seed, 2, 1, 2, PRIOS, 2), (ctx.tier, ctx.seed, 2, 1, 2, PRIOS, 0, 'old')]
     states = transitions = 0
     per = []
     for j in jobs:
@@ -415,6 +426,7 @@ def run(ctx):
 def replay(data):
     r = data['replay']
     dr = Driver(*r['bounds'][:3], tuple(r.get('prios', PRIOS)), r.get('max_reset', 0))
+    dr.flavor = r.get('flavor', 'api')
     dr.reset()
     hits = []
     for ev in [tuple(e) for e in r['history']]:
